@@ -123,6 +123,8 @@ CURATED += [
     ('string_escape_align', ['string a\\nb\\t\\x41', 'L0:', 'align 4', 'L1:', 'dw L1', 'dw L0']),
     ('offset_after_padded_align', ['dh 1', 'align 4', 'L1:', FC, 'addi x5 x5 %offset(L1)', 'dw %offset(L1)', 'db 1', 'align 8', 'pack <i %offset(L1)', 'j L1']),
     ('offset_after_gap_align', [G(0), 'align 16', 'L1:', F4, 'dw %offset(L1)', 'lw x5 x6 %offset(L1)', 'beq x8 x0 L1']),
+    # a jal at the very edge of its reach with an align behind the gap: see known finding F1 (C12)
+    ('reach_edge_align', ['dh 1', 'sub x8 x8 x9', 'jal x5 L3', F4, G(0), 'align 4', 'L3:', F4]),
     ('far_call_then_bwd_br', ['call L9', 'L1:', G(0), 'bnez x8 L1', 'j L1', G(1), 'L9:', F4]),
     ('far_tail_then_bwd_j', ['mv x8 x9', 'tail L9', 'L1:', FC, G(0), 'j L1', 'beq x9 x0 L1', G(1), 'L9:', F4]),
     ('labelref_then_regonly', ['L0:', 'bne x8 x9 L0', 'sub x8 x8 x9', 'lui x5 %hi(L0)', 'and x8 x8 x9', 'lw x12 x0 %lo(L0)', 'slli x9 x9 2', 'dw L0', 'add x8 x8 x9', 'j L0', 'ebreak']),
